@@ -831,6 +831,15 @@ func genPkgCase(rng *rand.Rand, id int, profile, scratch string, tier string) *P
 	c.Umask = pick(rng, []int{0, 0o02, 0o22, 0o27, 0o77})
 	c.Pmt = pick(rng, []int{0, 1600000000, 1234567890})
 	switch profile {
+	case "stamps":
+		// C07: the package mtime is always fixed; scripts, changelog and per-entry mtimes provide other legitimate stamps
+		c.Pmt = pick(rng, []int{1600000000, 1234567890, 0})
+		c.PmtZero = c.Pmt == 0
+		c.Entries = payloadEntries(rng, nodes, c.NoGlob, 1+rng.Intn(7))
+		nodes = append(nodes, addScripts(rng, c, subset(rng, scriptSlots))...)
+		if rng.Intn(2) == 0 {
+			c.Changelog = []ChEntry{{"1.2.3", 1500000000, "Jane Doe <jane@example.org>", []string{"note"}}}
+		}
 	case "payload":
 		c.Entries = payloadEntries(rng, nodes, c.NoGlob, 1+rng.Intn(9))
 		if rng.Intn(10) == 0 {
@@ -851,7 +860,7 @@ func genPkgCase(rng *rand.Rand, id int, profile, scratch string, tier string) *P
 func famPkg(tr *Trace, scratch string, seed int64, tier string, workers int, profile string) M {
 	os.Unsetenv("SOURCE_DATE_EPOCH")
 	rng := rand.New(rand.NewSource(seed*7919 + int64(len(profile))))
-	n := map[string]int{"payload": 60, "meta": 60, "scripts": 40}[profile]
+	n := map[string]int{"payload": 60, "meta": 60, "scripts": 40, "stamps": 50}[profile]
 	if tier == "thorough" {
 		n *= 15
 	}
